@@ -36,6 +36,12 @@ _PURE_BUILTINS = {'dict': dict, 'list': list, 'tuple': tuple, 'set': set, 'sorte
                   'min': min, 'max': max, 'abs': abs, 'sum': sum, 'len': len, 'str': str, 'int': int, 'bool': bool, 'repr': repr}
 
 
+import posixpath as _pp
+_PURE_EXTERNALS = {'os.path.join': _pp.join, 'os.path.normpath': _pp.normpath, 'os.path.basename': _pp.basename, 'os.path.dirname': _pp.dirname,
+                   'os.path.splitext': _pp.splitext, 'os.path.isabs': _pp.isabs, 'os.path.abspath': lambda x: _pp.normpath(_pp.join('/cwd', x)),
+                   'os.fspath': str, 'os.path.split': _pp.split}
+
+
 def _concrete(v, depth=0):
     """a plain Python value without abstract parts (node objects, opaque values, class / external markers may be *elements*
     of containers - the builtins above only rearrange them - but not the container itself)"""
@@ -246,17 +252,40 @@ class FDE:
                 if s.exc is not None:
                     e = s.exc.func if isinstance(s.exc, ast.Call) else s.exc
                     name = unparse(e).split('.')[-1]
+                    if not name[:1].isupper():
+                        # `raise self._make_error(...)` / `raise err`: the exception object is computed
+                        v = self._ev(s.exc, env, fi)
+                        if isinstance(v, tuple) and len(v) == 2 and v[0] == 'exc':
+                            name = v[1]
+                        else:
+                            raise Unsupported('raise of a computed value: %s' % unparse(s.exc))
                 raise Raised(name)
             elif isinstance(s, ast.Expr) and isinstance(s.value, (ast.Yield, ast.YieldFrom)):
                 raise Yielded()
             elif isinstance(s, ast.Expr):
                 self._ev(s.value, env, fi)
             elif isinstance(s, ast.Try):
-                # body only: handlers are not modelled (rules using this evaluate exception-free fragments);
-                # the finally block runs on normal completion, not when the evaluation stops at a yield
-                self._run(s.body, env, fi)
-                self._run(s.orelse, env, fi)
-                self._run(s.finalbody, env, fi)
+                # handlers are modelled for exceptions the evaluation itself raises (raise statements, stubs raising Raised);
+                # the finally block runs on every way out except when the evaluation stops at a yield
+                try:
+                    try:
+                        self._run(s.body, env, fi)
+                    except Raised as r:
+                        h = self._handler_for(s.handlers, r.exc, fi)
+                        if h is None:
+                            raise
+                        if h.name:
+                            env[h.name] = Opaque('caught ' + str(r.exc))
+                        self._run(h.body, env, fi)
+                    else:
+                        self._run(s.orelse, env, fi)
+                except Yielded:
+                    raise
+                except BaseException:
+                    self._run(s.finalbody, env, fi)
+                    raise
+                else:
+                    self._run(s.finalbody, env, fi)
             elif isinstance(s, ast.Pass):
                 pass
             elif isinstance(s, (ast.ImportFrom, ast.Import)):
@@ -326,6 +355,23 @@ class FDE:
                 env[s.name] = ('closure', nested, env)
             else:
                 raise Unsupported('statement %s in %s' % (type(s).__name__, fi.qualname))
+
+    def _handler_for(self, handlers, exc_name, fi):
+        import builtins
+        for h in handlers:
+            if h.type is None:
+                return h
+            types_ = h.type.elts if isinstance(h.type, ast.Tuple) else [h.type]
+            for t in types_:
+                hn = unparse(t).split('.')[-1]
+                if hn == exc_name or hn in ('Exception', 'BaseException'):
+                    return h
+                a, b = getattr(builtins, str(exc_name), None), getattr(builtins, hn, None)
+                if isinstance(a, type) and isinstance(b, type) and issubclass(a, b):
+                    return h
+                if str(exc_name) in self.repo.classes and hn in self.repo.mro(str(exc_name)):
+                    return h
+        return None
 
     def _assign(self, t, v, env, fi):
         if isinstance(t, ast.Name):
@@ -406,7 +452,7 @@ class FDE:
             return ('dictmethod', base, attr)
         if isinstance(base, str) and attr in _STR_METHODS:
             return ('strmethod', base, attr)
-        if isinstance(base, list) and attr in ('append', 'extend', 'copy', 'index', 'count'):
+        if isinstance(base, (list, set)) and not attr.startswith('_') and hasattr(base, attr):
             return ('listmethod', base, attr)
         raise Unsupported('attribute %s of %r' % (attr, base))
 
@@ -689,6 +735,11 @@ class FDE:
                 if n == 'len' and isinstance(args[0], (dict, list, tuple, str)):
                     return len(args[0])
                 raise Unsupported('builtin ' + n)
+            import builtins as _b
+            if n not in env and isinstance(getattr(_b, n, None), type) and issubclass(getattr(_b, n), BaseException):
+                return ('exc', n)
+            if n in self.repo.classes and n not in env and any(b.endswith('Error') or b in ('Exception',) for b in self.repo.mro(n)[1:] + [n]) and not self.repo.is_subclass(n, 'ConfigNode'):
+                return ('exc', n)
             if n in _PURE_BUILTINS and n not in env and all(_concrete(a) for a in args) and all(_concrete(v) for v in kwargs.values()):
                 try:
                     r = _PURE_BUILTINS[n](*args, **kwargs)
@@ -712,6 +763,8 @@ class FDE:
             raise Unsupported('call of %s (unresolved)' % n)
         if isinstance(f, ast.Attribute) and unparse(f) in self.extcalls:
             return self.extcalls[unparse(f)](*args, **kwargs)
+        if isinstance(f, ast.Attribute) and unparse(f) in _PURE_EXTERNALS and all(isinstance(a, (str, int)) for a in args) and not kwargs:
+            return _PURE_EXTERNALS[unparse(f)](*args)
         if unparse(f) in ('itertools.takewhile', 'takewhile', 'itertools.dropwhile', 'dropwhile', 'filter', 'map') and len(args) == 2 and isinstance(args[1], (list, tuple)):
             import itertools
             fn = {'takewhile': itertools.takewhile, 'dropwhile': itertools.dropwhile, 'filter': filter, 'map': map}[unparse(f).split('.')[-1]]
@@ -777,6 +830,9 @@ class FDE:
                     return getattr(target[1], target[2])(*args)
                 raise Unsupported('str.%s on abstract arguments' % target[2])
             if isinstance(target, tuple) and target and target[0] == 'listmethod':
-                return getattr(target[1], target[2])(*args)
+                try:
+                    return getattr(target[1], target[2])(*args, **kwargs)
+                except (ValueError, IndexError, KeyError, TypeError) as ex:
+                    raise Raised(type(ex).__name__)
             raise Unsupported('call of %s' % unparse(f))
         raise Unsupported('call of %s' % unparse(f))
